@@ -662,6 +662,28 @@ fn vp_native_connect_refusals() {
     println!("VP-NATIVE connect_refusals cases={}", cases);
 }
 
+/// C05: whatever a proxy sends after refusing CONNECT, at most 10 KiB of it are kept in the error
+#[test]
+fn vp_native_connect_refusal_body_cap() {
+    let mut cases = 0u64;
+    for status in [403u16, 407, 500] { for (with_cl, declared, blen) in [(true, 0usize, 0usize), (true, 10240, 10240), (true, 10241, 10241), (true, 300_000, 300_000), (true, 5_000_000, 300_000), (false, 0, 300_000)] {
+        let log = Arc::new(Mutex::new(Vec::new()));
+        let body = "x".repeat(blen);
+        let proxy = serve(log.clone(), move |_, _| {
+            let mut w = if with_cl { format!("HTTP/1.1 {} X\r\nContent-Length: {}\r\n\r\n", status, declared) } else { format!("HTTP/1.1 {} X\r\n\r\n", status) }.into_bytes();
+            w.extend_from_slice(body.as_bytes()); w });
+        let mut s = crate::Session::new();
+        s.proxy_settings(crate::ProxySettings::builder().https_proxy(Url::parse(&format!("http://127.0.0.1:{}", proxy)).unwrap()).build());
+        let e = s.get("https://origin.test/").send(); cases += 1;
+        match e.map_err(|e| e.into_kind()) {
+            Err(crate::ErrorKind::ConnectError { body, .. }) => assert!(body.len() <= 10 * 1024, "refusal body of {} bytes kept (status {}, declared length {:?}, {} bytes sent)", body.len(), status, if with_cl { Some(declared) } else { None }, blen),
+            Err(_) => {}
+            Ok(_) => panic!("a refused CONNECT cannot succeed"),
+        }
+    } }
+    println!("VP-NATIVE connect_refusal_body_cap cases={}", cases);
+}
+
 // ---------------------------------------------------------------- builder features (C07): params, auth helpers, every library body kind
 fn pct_decode(s: &str) -> Vec<u8> {
     let b = s.as_bytes(); let mut out = Vec::new(); let mut i = 0;
